@@ -449,3 +449,84 @@ pub fn c12_language_any_string() {
     assert!(e == [0x55, 0xc4], "empty code falls back to 'und'");
     crate::vcover!(two_one, "multi-byte character");
 }
+
+// ---------------------------------------------------------------------------
+// validation::* (public dry-run validators): panic freedom + is_valid <=> no errors
+// ---------------------------------------------------------------------------
+use muxide::validation as val;
+
+macro_rules! vslice_h {
+    ($name:ident, $n:expr, $unw:expr, |$d:ident| $body:block) => {
+        #[kani::proof]
+        #[kani::unwind($unw)]
+        #[kani::stub(muxide::invariant_ppt::__assert_invariant_impl, crate::stubs::assert_invariant_stub)]
+        #[kani::stub(alloc::fmt::format, crate::stubs::format_stub)]
+        pub fn $name() {
+            let buf: [u8; $n] = kani::any();
+            let len: usize = kani::any();
+            kani::assume(len <= $n);
+            let $d: &[u8] = &buf[..len];
+            $body;
+            crate::vcover!(len == $n, "full length reached");
+            crate::vcover!(len == 0, "empty input reached");
+        }
+    };
+}
+
+//@ prop=C12 tier=quick cost=60 fns="validation::validate_video_frame(H264),ValidationResult::{valid,with_error,with_message},is_h264_keyframe" bound="all byte strings of length 0..=6, any keyframe flag" unwind=9 stubs="assert_invariant(panic-only),fmt::format"
+vslice_h!(c12_validate_video_frame_h264, 6, 9, |d| {
+    let r = val::validate_video_frame(VideoCodec::H264, d, kani::any());
+    assert!(r.is_valid == r.errors.is_empty());
+    core::mem::forget(r);
+});
+//@ prop=C12 tier=quick cost=60 fns="validation::validate_video_frame(H265),is_hevc_keyframe" bound="all byte strings of length 0..=6, any keyframe flag" unwind=9 stubs="assert_invariant(panic-only),fmt::format"
+vslice_h!(c12_validate_video_frame_h265, 6, 9, |d| {
+    let r = val::validate_video_frame(VideoCodec::H265, d, kani::any());
+    assert!(r.is_valid == r.errors.is_empty());
+    core::mem::forget(r);
+});
+//@ prop=C12 tier=quick cost=60 fns="validation::validate_video_frame(Av1),is_av1_keyframe" bound="all byte strings of length 0..=6, any keyframe flag" unwind=9 stubs="assert_invariant(panic-only),fmt::format"
+vslice_h!(c12_validate_video_frame_av1, 6, 9, |d| {
+    let r = val::validate_video_frame(VideoCodec::Av1, d, kani::any());
+    assert!(r.is_valid == r.errors.is_empty());
+    core::mem::forget(r);
+});
+//@ prop=C12 tier=quick cost=10 fns="validation::validate_video_frame(Vp9),is_vp9_keyframe" bound="all byte strings of length 0..=6, any keyframe flag" unwind=4 stubs="assert_invariant(panic-only),fmt::format"
+vslice_h!(c12_validate_video_frame_vp9, 6, 4, |d| {
+    let r = val::validate_video_frame(VideoCodec::Vp9, d, kani::any());
+    assert!(r.is_valid == r.errors.is_empty());
+    core::mem::forget(r);
+});
+//@ prop=C12 tier=quick cost=10 fns="validation::validate_audio_frame,is_valid_opus_packet" bound="all byte strings of length 0..=8, codec AAC-LC / Opus / None" unwind=4 stubs="assert_invariant(panic-only),fmt::format"
+vslice_h!(c12_validate_audio_frame, 8, 4, |d| {
+    let which: u8 = kani::any();
+    let codec = match which % 3 { 0 => AudioCodec::Aac(AacProfile::Lc), 1 => AudioCodec::Opus, _ => AudioCodec::None };
+    let r = val::validate_audio_frame(codec, d);
+    assert!(r.is_valid == r.errors.is_empty());
+    if d.is_empty() || matches!(codec, AudioCodec::None) { assert!(!r.is_valid); }
+    core::mem::forget(r);
+});
+
+//@ prop=C12 tier=quick cost=20 fns="validation::validate_video_config,validate_audio_config" bound="all u32 dimensions, all f64 framerates (incl. NaN/inf), all u32 sample rates, all u8 channel counts, every codec" unwind=4 stubs="fmt::format"
+#[kani::proof]
+#[kani::unwind(4)]
+#[kani::stub(alloc::fmt::format, crate::stubs::format_stub)]
+pub fn c12_validate_configs() {
+    let which: u8 = kani::any();
+    let vc = match which % 4 { 0 => VideoCodec::H264, 1 => VideoCodec::H265, 2 => VideoCodec::Av1, _ => VideoCodec::Vp9 };
+    let w: u32 = kani::any();
+    let h: u32 = kani::any();
+    let fps: f64 = kani::any();
+    let r = val::validate_video_config(vc, w, h, fps);
+    assert!(r.is_valid == r.errors.is_empty());
+    if w == 0 || h == 0 || w > 4096 || h > 2160 || fps <= 0.0 || fps > 120.0 { assert!(!r.is_valid); }
+    core::mem::forget(r);
+    let ac = match (which / 4) % 3 { 0 => AudioCodec::Aac(AacProfile::Lc), 1 => AudioCodec::Opus, _ => AudioCodec::None };
+    let sr: u32 = kani::any();
+    let ch: u8 = kani::any();
+    let r2 = val::validate_audio_config(ac, sr, ch);
+    assert!(r2.is_valid == r2.errors.is_empty());
+    crate::vcover!(r2.is_valid, "valid audio config reached");
+    crate::vcover!(!r2.is_valid, "invalid audio config reached");
+    core::mem::forget(r2);
+}
